@@ -62,6 +62,9 @@ class Oracles:
         w.label("rejected:" + got)
         if len(must) >= 2:
             w.label("rejected:multi-cause")
+        if pm.closed and got == "TaskGroupAlreadyExists":
+            # C08: on a closed pool *every* spawn request raises PoolIsClosed - a name that happens to be taken does not come first
+            w.fail({"C08"}, "close/request-on-closed-pool-raised-another-error", f"{rm.kind} raised {got}")
         if not must:
             props = {"C09", "C04"} if rm.kind in ("apply", "start") else {"C09", "C05"}
             if got == "TaskGroupAlreadyExists" and rm.spec.get("gname") is None:
